@@ -19,10 +19,12 @@ import common as C  # noqa: E402
 import exedriver    # noqa: E402
 from props import c17_samplers as S  # noqa: E402
 from props import c17_reuse as RU  # noqa: E402
+from props import c17_kernels as K  # noqa: E402
 from floatcmp import f2b, b2f  # noqa: E402
 
-GEN = ['BSF']
-PROPS = ['FinVerif.Props.C17a', 'FinVerif.Props.C17b', 'FinVerif.Props.C17c', 'FinVerif.Props.C17d']
+GEN = ['BSF', 'KernF', 'CreditF', 'CreditP']
+PROPS = ['FinVerif.Props.C17a', 'FinVerif.Props.C17b', 'FinVerif.Props.C17c', 'FinVerif.Props.C17d', 'FinVerif.Props.C17e',
+         'FinVerif.Props.C17f']
 DRIVERS = ['FinVerif.Driver.C17']
 MEASURE = bool(os.environ.get('C17_MEASURE'))
 
@@ -98,7 +100,7 @@ class Meas:
 
 
 def run(ctx):
-    drivers_ok = C.lean_stage(ctx, GEN, PROPS, DRIVERS, extra_files=['FinVerif/Lemmas/C17.lean', 'FinVerif/Spec/C17.lean', 'FinVerif/Model/C17Inv.lean'])
+    drivers_ok = C.lean_stage(ctx, GEN, PROPS, DRIVERS, extra_files=['FinVerif/Lemmas/C17.lean', 'FinVerif/Spec/C17.lean', 'FinVerif/Model/C17Inv.lean', 'FinVerif/Model/C17.lean'])
     C.import_financepy()
     import numpy as np
     from financepy.models import loss_dbn_builder as LB
@@ -606,6 +608,9 @@ def run(ctx):
     # =============================================================== 7. re-use: the object holds the contract, not the portfolio
     RU.reuse(ctx, meas, np, quick)
 
+    # =============================================================== 8. scalar kernels (generated text) and the basket survival loop
+    K.kernels(ctx, meas, np, quick, ops, checks, fl, f2b)
+
     # =============================================================== correspondence: model vs implementation
     if drivers_ok and ops:
         try:
@@ -661,9 +666,18 @@ def run(ctx):
         'comparison; its power against a distribution-function error shrinks with the error (quick: 20000 trials, detects the '
         'normal-for-t substitution up to about 40 degrees of freedom; the deterministic tie detects it at any)',
         'adjusted binomial: the base binomial summing to one (binomial theorem) is validated, the adjustment step is proved',
+        'gc_mass_one / gc_mean_regardless_of_correlation ASSUME the two scalar quadrature identities on the code\'s own nodes and '
+        'weights (c*sum_k exp(-z_k^2/2) = 1, c*sum_k w_k p_i(z_k) = p_i for every credit); they hold only approximately (rectangle '
+        'rule on [-6,6], Hull N) and are checked numerically on every run (mass 2e-8, mean per MEAN_TOL_BY_STEPS)',
+        'gauss_approx_tranche_loss / exp_min_lk theorems are about the GENERATED text (Gen/CreditP) with N, norminvcdf and the '
+        'bivariate normal M as arbitrary functions; the regular branches (sigma >= 1e-6, k < 1-R) are oracle-validated only',
+        'tranche EL non-decreasing in time: proved as monotonicity of the expectation under tail dominance of the later law '
+        '(trancheEL_mono_of_dominance); that the later law dominates (default probabilities grow with time) is validated numerically',
+        'nth-to-default: proved that the basket survival probability is non-decreasing in n at every date; that the spread is a '
+        'decreasing functional of the survival curve (CDS legs, C09) is validated by the spread oracle only',
     ]
     return C.finish(ctx, 'proof',
-                    'lake build FinVerif.Props.C17a FinVerif.Props.C17b FinVerif.Props.C17c FinVerif.Props.C17d && lake env lean .cache/audit/Audit_C17.lean',
+                    'lake build FinVerif.Props.C17a FinVerif.Props.C17b FinVerif.Props.C17c FinVerif.Props.C17d FinVerif.Props.C17e FinVerif.Props.C17f && lake env lean .cache/audit/Audit_C17.lean',
                     C.TRUSTED_BASE_COMMON + ['hand-written model FinVerif/Model/C17.lean + C17F.lean + C17Inv.lean, tied to the Numba kernels '
                                              'by the entry-wise correspondence of this run; the inversion step of the samplers '
                                              '(which function F is applied) is tied by the per-sample comparison with SciPy',
@@ -1188,6 +1202,17 @@ def replay(ctx, path):
         mass, mean = float(d.sum()), float((d * np.arange(len(d))).sum())
         print(f'replay {fn}: mass={mass!r} mean={mean!r} expected mean={float((p * lu).sum())!r} min={float(d.min())!r}')
         bad = abs(mass - 1) > TOL_MASS_GC or abs(mean - float((p * lu).sum())) > mean_tol(int(cs['num_integration_steps'])) * lu.sum() or d.min() < 0
+    elif fn == 'gauss_approx_tranche_loss':
+        v_ = float(GC.gauss_approx_tranche_loss(cs['k1'], cs['k2'], cs['mu'], cs['sigma']))
+        want = min(max(cs['mu'] - cs['k1'], 0.0), cs['k2'] - cs['k1'])
+        print(f'replay {fn}: returned={v_!r} tranche function at mu={want!r}')
+        bad = (abs(cs['sigma']) < 1e-6 and abs(v_ - want) > 1e-15) or not (-1e-7 <= v_ <= cs['k2'] - cs['k1'] + 1e-7)
+    elif fn == 'exp_min_lk':
+        from financepy.models import gauss_copula_lhp as LHP
+        v_ = float(LHP.exp_min_lk(cs['k'], cs['p'], cs['r'], 1.0, cs['beta']))
+        el = cs['p'] * (1.0 - cs['r'])
+        print(f'replay {fn}: returned={v_!r} p(1-R)={el!r}')
+        bad = (v_ != el) if (cs['k'] >= 1.0 - cs['r'] and cs['k'] != 0.0 and cs['p'] != 0.0) else not (-1e-6 <= v_ <= min(cs['k'], el) + 1e-6)
     elif fn == 'reuse':
         bad = RU.replay_case(np, cs)
     elif fn in (S.T_NAME, S.G_NAME):
